@@ -83,6 +83,27 @@ def field_tables(prog, rep):
         rep.check(composite == CREATE_MAP, "FIELDS", "PeeweeStorage.create_bucket", "create -> read table", f"{composite}", f"parameter->key map is {composite}, expected {CREATE_MAP}", cr[0].loc(), expected=CREATE_MAP, found=composite)
     else:
         rep.undecided("FIELDS", "PeeweeStorage.create_bucket", "tables", f"{len(cr)} create chains / {len(jr)} json dicts")
+    # the creation instant must come back as the same instant
+    if len(jr) == 1:
+        cr_v = {k.value: v for k, v in zip(jr[0].value.keys, jr[0].value.values) if isinstance(k, ast.Constant)}.get("created")
+        t = norm(cr_v) if cr_v is not None else ""
+        if ".replace(tzinfo" in t or "replace(tzinfo" in t:
+            rep.violation("FIELDS", "BucketModel.json", "created instant", f"`{t}` re-labels the stored creation time with another zone instead of converting it: a bucket created with a non-UTC instant is listed with a different creation instant", js.loc(), expected="iso8601.parse_date(self.created).astimezone(timezone.utc).isoformat()", found=t)
+        elif t in ("iso8601.parse_date(self.created).astimezone(timezone.utc).isoformat()", "self.created", "iso8601.parse_date(self.created).isoformat()"):
+            rep.ok("FIELDS", "BucketModel.json", "created instant", t, js.loc())
+        else:
+            rep.undecided("FIELDS", "BucketModel.json", "created instant", f"unrecognised decoding `{t}`", js.loc())
+    # explicit column lists must cover what json() reads
+    json_fields = set()
+    if len(jr) == 1:
+        json_fields = {n.attr for n in ast.walk(jr[0].value) if isinstance(n, ast.Attribute) and isinstance(n.value, ast.Name) and n.value.id == "self"}
+    for ch in chains:
+        if ch.model == "BucketModel" and ch.op == "select" and ch.op_call.args and ch.fi.cls is not None and ch.fi.cls.name == "PeeweeStorage":
+            cols = {norm(a).split(".")[-1] for a in ch.op_call.args}
+            uses_json = "json()" in norm(ch.fi.node) or ch.fi.name in ("buckets", "get_metadata")
+            missing = sorted(json_fields - cols)
+            if uses_json:
+                rep.check(not missing, "FIELDS", ch.fi.short, "selected columns cover json()", f"{sorted(cols)}", f"the listing selects only {sorted(cols)} but BucketModel.json() reads {missing} as well: those fields come back empty (e.g. the bucket's data dict as {{}}), and the legacy-database migration, which copies buckets from this listing, loses them", ch.loc())
     pu = prog.func("PeeweeStorage.update_bucket")
     umap = {}
     for n in walk_own(pu.node):
@@ -315,6 +336,8 @@ VARIANTS = [
     ("B memory update on unknown bucket silently ignored", ME, '        else:\n            raise ValueError("Bucket did not exist, could not update")\n', "", "NOT-FOUND"),
     ("B sqlite delete of unknown bucket silent", SQ, '        if cursor.rowcount != 1:\n            raise ValueError("Bucket did not exist, could not delete")\n', "", "NOT-FOUND"),
     ("B getitem returns None for unknown id", DS, "                raise KeyError\n", "                return None\n", "CACHES"),
+    ("B creation instant relabelled instead of converted", PW, "            .astimezone(timezone.utc)\n            .isoformat(),", "            .replace(tzinfo=timezone.utc)\n            .isoformat(),", "FIELDS"),
+    ("B listing projection drops the data column", PW, "        return {bucket.id: bucket.json() for bucket in BucketModel.select()}", "        return {bucket.id: bucket.json() for bucket in BucketModel.select(BucketModel.key, BucketModel.id, BucketModel.created, BucketModel.name, BucketModel.type, BucketModel.client, BucketModel.hostname)}", "FIELDS"),
     ("OK guard written with truthiness (listed)", PW, "            if client is not None:\n                bucket.client = client\n", "            if client:\n                bucket.client = client\n", "ok"),
     ("OK eviction via pop", DS, "        if bucket_id in self.bucket_instances:\n            del self.bucket_instances[bucket_id]\n", "        self.bucket_instances.pop(bucket_id, None)\n", "ok"),
     ("OK independent field updates reordered", ME, '            if type_id:\n                self._metadata[bucket_id]["type"] = type_id\n            if client:\n                self._metadata[bucket_id]["client"] = client\n', '            if client:\n                self._metadata[bucket_id]["client"] = client\n            if type_id:\n                self._metadata[bucket_id]["type"] = type_id\n', "ok"),
